@@ -265,6 +265,9 @@ func cmdVC(args []string) {
 			fmt.Printf("%s: NOT VERIFIED: %s\n", vc.name, vc.unsup)
 			continue
 		}
+		for _, c := range vc.unknownCalls {
+			fmt.Printf("%s: call without contract: %s\n", vc.name, c)
+		}
 		for _, o := range vc.obls {
 			if *only == "" || strings.Contains(o.Name, *only) {
 				obls = append(obls, o)
